@@ -66,26 +66,14 @@ def baseName : Str → Str → Str
   | 47 :: rest, _ => baseName rest []
   | c :: rest, acc => baseName rest (c :: acc)
 
-/-- the shell oracle of the protocol -/
+/-- the shell oracle of the protocol (`${PWD##*/}`: the shell's working directory has no trailing slash) -/
 def oracle : Shell := fun cmd dir e =>
   match cmd with
   | 36 :: rest => get e (natOfDigits rest)
-  | _ => cmd ++ [64] ++ baseName dir []
+  | _ => cmd ++ [64] ++ baseName (dir.reverse.dropWhile (· = 47)).reverse []
 
 def siteOfIdx : Nat → Site
   | 0 => .taskfileEnv | 1 => .taskfileVars | 2 => .includeVars | 3 => .includedTaskfileVars | 4 => .callVars | _ => .taskVars
-
-def doResolve : P String := do
-  let root ← str; let dirAfter ← nat; let tpl ← parts
-  let nb ← nat; let base ← many nb binding
-  let blocks ← many 6 (do let n ← nat; many n vdef)
-  let nq ← nat; let qs ← many nq nat
-  let defs : Site → List (Name × VarDef) := fun s =>
-    match s with
-    | .taskfileEnv => blocks[0]! | .taskfileVars => blocks[1]! | .includeVars => blocks[2]!
-    | .includedTaskfileVars => blocks[3]! | .callVars => blocks[4]! | .taskVars => blocks[5]!
-  let st := getVariables ⟨oracle, base.reverse, false⟩ ⟨root, tpl, dirAfter⟩ base.reverse (layersOf defs) []
-  pure (" ".intercalate (qs.map (fun q => showStr (get st.env q))))
 
 def doEnv : P String := do
   let no ← nat; let os ← many no binding
@@ -154,7 +142,7 @@ def doCli : P String := do
   let defs : Site → List (Name × VarDef) := fun s =>
     match s with
     | .taskfileEnv => genv | .taskfileVars => gl | .taskVars => tv | _ => []
-  let st := getVariables ⟨oracle, base.reverse, false⟩ ⟨[], [], 3⟩ base.reverse (layersOf defs) []
+  let st := getVariables ⟨oracle, base.reverse, false⟩ ⟨[], [], []⟩ base.reverse (layersOf defs) []
   pure (" ".intercalate (qs.map (fun q => showStr (get st.env q))))
 
 /-- `vars.compile <home> <rootDir> <entrypoint> <uwd> <taskName> <rawDir> <dirTpl: nparts part*> <taskfile> <alias>
@@ -187,11 +175,11 @@ def doCompile : P String := do
   let r := compile w home cd []
   pure (" ".intercalate (qs.map (fun q => showStr (get r.vars q)) ++ ["dir=" ++ showStr r.dir]))
 
-/-- `vars.envpipe <prec> <rootDir> <dirTpl: nparts part*> <nos> (name val)* <genv block> <gvars block> <dotenv block> <tenv block> <tvars block> <nq> name*`
+/-- `vars.envpipe <prec> <home> <rootDir> <dirTpl: nparts part*> <nos> (name val)* <genv block> <gvars block> <dotenv block> <tenv block> <tvars block> <nq> name*`
 → per name `<{{.N}}>/<$N | none>`, then `dir=<compiled Dir>`: the environment clause over the real pipeline (`Vars.EnvPipe`) -/
 def doEnvPipe : P String := do
   let prec ← bool
-  let root ← str; let tpl ← parts
+  let home ← str; let root ← str; let tpl ← parts
   let nb ← nat; let os ← many nb binding
   let block : P (List (Name × VarDef)) := do let n ← nat; many n vdef
   let genv ← block; let gvars ← block; let dotenv ← block; let tenv ← block; let tvars ← block
@@ -200,8 +188,8 @@ def doEnvPipe : P String := do
   let defs : Site → List (Name × VarDef) := fun s =>
     match s with
     | .taskfileEnv => genv | .taskfileVars => gvars | .taskVars => tvars | _ => []
-  let st := getVariables w ⟨root, tpl, 3⟩ os.reverse (layersOf defs) []
-  let dir := joinDir root (render st.env tpl)
+  let st := getVariables w ⟨root, tpl, home⟩ os.reverse (layersOf defs) []
+  let dir := taskDirOver ⟨root, tpl, home⟩ st.env
   let ce := compiledEnv w st.env genv dotenv tenv dir st.cache
   pure (" ".intercalate (qs.map (fun q => showStr (get st.env q) ++ "/" ++
       (match commandSees w ce.1 q with | some v => showStr v | none => "none")) ++ ["dir=" ++ showStr dir]))
@@ -225,7 +213,7 @@ def doFsHist : P String := do
       | .taskfileVars => if glob then [(1, .sh [.text gname] none)] else []
       | .taskVars => [(0, .sh [.text c.2.1] none)]
       | _ => []
-    Ev.compile ⟨root, (if c.1 = [] then [] else [.text c.1]), 3⟩ [] (layersOf defs) :: c.2.2.map (fun w => Ev.effect (writeFile w.1 w.2)))
+    Ev.compile ⟨root, (if c.1 = [] then [] else [.text c.1]), []⟩ [] (layersOf defs) :: c.2.2.map (fun w => Ev.effect (writeFile w.1 w.2)))
   let envs := histEnvs ⟨catShell, [], false⟩ evs (files.reverse, [])
   pure (" ".intercalate (envs.map (fun e => showStr (get e 0) ++ "/" ++ showStr (get e 1))))
 
@@ -235,7 +223,6 @@ def handle (op : String) (args : List String) : Option String :=
   | "vars.envchain" => run doEnvChain
   | "vars.dotenvchain" => run doDotenvChain
   | "vars.loop" => run doLoop
-  | "vars.resolve" => run doResolve
   | "vars.env" => run doEnv
   | "vars.product" => run doProduct
   -- execution consistency: what each call printed (command and deferred command) must be the values
